@@ -13,6 +13,10 @@ impl Monitor for C10 {
     fn prop(&self) -> &'static str {
         "C10"
     }
+    fn scalable(&self, g: &str) -> bool {
+        let _ = g;
+        true
+    }
     fn gens(&self, tier: Tier) -> Vec<Gen> {
         vec![
             // region x front x uplink DR slot(8) x offset(8) x rx-delay class(4)
